@@ -253,9 +253,9 @@ CHECKS = {
                     'draws are injected through tag-guarded hooks for the corners and left to the client in most random cases. Both sides must end with the same 256-byte key, '
                     'key id and salt, the session must be stored, and the first encrypted request must be readable by the server.'),
         technique='scenario-based property testing (rapid) against a reference MTProto server with search-forced numeric corners',
-        rule=('case = key-exchange scenario (RSA key, server_nonce, p<q primes, pq padding, g, server secret a, padding seed, optionally injected client nonce/new_nonce/b). '
+        rule=('case = key-exchange scenario (RSA-2048 key from a pool of 14 with public exponents 3, 17, 257, 49153, 65537, 2^24+43, 2^31-1; server_nonce, p<q primes, pq padding, g, server secret a, padding seed, optionally injected client nonce/new_nonce/b). '
               'Every completed run is non-trivial; classes record which field the server actually saw starting with zero bytes; distinct by hash of the scenario.'),
-        must_hit=['server-clock-after-2038', 'reply-in-two-tcp-segments', 'second-attempt-after-refused-connection', 'fingerprints:known-key-first', 'fingerprints:known-key-last', 'fingerprints:known-key-in-the-middle', 'corner:nonce', 'corner:server_nonce', 'corner:new_nonce', 'corner:new_nonce_hash1', 'corner:rsa_ciphertext', 'corner:g_a', 'corner:g_b', 'corner:g_ab',
+        must_hit=['rsa-public-exponent:1-bytes', 'rsa-public-exponent:2-bytes', 'rsa-public-exponent:3-bytes', 'rsa-public-exponent:4-bytes', 'server-clock-after-2038', 'reply-in-two-tcp-segments', 'second-attempt-after-refused-connection', 'fingerprints:known-key-first', 'fingerprints:known-key-last', 'fingerprints:known-key-in-the-middle', 'corner:nonce', 'corner:server_nonce', 'corner:new_nonce', 'corner:new_nonce_hash1', 'corner:rsa_ciphertext', 'corner:g_a', 'corner:g_b', 'corner:g_ab',
                   'draws:client-own', 'draws:injected', 'pq:above-2^63', 'pq:small', 'verdict:ok'],
         assumptions=['the reference server is conformant: it follows core.telegram.org/mtproto/auth_key with fixed-width values (self-consistent: it completes with the fixed client)',
                      'DH group = Telegram\'s 2048-bit safe prime', 'a connect that the server side had to abandon (recorded reason) is judged by that reason, never by elapsed time'],
